@@ -1,4 +1,4 @@
-(* C03 — placeholder while the proofs are being written; statements follow. *)
+(* C03 — statements are being added; see DESIGN.md section 7. *)
 From XSG.Model Require Import Strings.
 Example C03_placeholder : True. Proof. exact I. Qed.
 Print Assumptions C03_placeholder.
